@@ -215,7 +215,7 @@ def run_multicube(tier, seed):
     # ---- counts) so that the k-th row of both cubes is the same element
     sF, rF, st, err = records_for(
         scenario("fc_text", [cat("A", 5, miss=[5], subtype="text", ids=[0, 1, 2, 3, -1])],
-                 weighted=False, weights=[1], min_base=2), "c02", seed + 9, 2 * nrec, min_resp=1)
+                 weighted=False, weights=[1], min_base=5), "c06", seed + 9, 2 * nrec, min_resp=1)
     gen += st["generated"]
     if err:
         return problems, evals, gen, err
